@@ -134,6 +134,7 @@ type VC struct {
 	done           bool
 	retsP          *[]inlRet
 	splitOK        bool
+	unmatchedDone  bool
 	knownOpen      map[string]bool
 	crossCheck     bool
 	rootOf         *VC
@@ -914,6 +915,11 @@ func (vc *VC) Generate() (err error) {
 			vc.ghostAssign(env, ga, vc.st)
 		}
 	}
+	if c != nil {
+		for i := range c.ErrorOnly {
+			vc.setH(vc.st, fmt.Sprintf("$errfrom:%d", i), "Bool", "false")
+		}
+	}
 	vc.oblige("cover:entry", "cover", "function entry reachable under requires", "true", nil)
 	vc.r().obls[len(vc.r().obls)-1].Cover = true
 	vc.entry = vc.st.clone()
@@ -1076,6 +1082,7 @@ func (vc *VC) runInstrs(b *ssa.BasicBlock, from int, split bool) {
 						cl.pathNote = strings.TrimPrefix(note0+"; "+br.note, "; ")
 					}
 					cl.assignCallResults(call, br.res)
+					cl.afterCall(call)
 					cl.runInstrs(b, i+1, split)
 					cl.curInstr = nil
 					if cl.done {
@@ -1436,6 +1443,9 @@ func (vc *VC) instr(ins ssa.Instruction) {
 	case *ssa.Call:
 		res := vc.call(ins, ins.Common())
 		vc.assignCallResults(ins, res)
+		if len(vc.pending) <= 1 {
+			vc.afterCall(ins)
+		}
 	case *ssa.Extract:
 		tup, ok := vc.tuples[ins.Tuple]
 		if !ok || ins.Index >= len(tup) {
@@ -2055,6 +2065,7 @@ func (vc *VC) ret(ins *ssa.Return) {
 		vc.outReach[b] = "false"
 		return
 	}
+	vc.emitUnmatchedAssertCalls()
 	vc.oblige(fmt.Sprintf("cover:return%d", vc.retCount), "cover", "return reachable", "true", nil)
 	vc.r().obls[len(vc.r().obls)-1].Cover = true
 	if c != nil {
@@ -2062,6 +2073,20 @@ func (vc *VC) ret(ins *ssa.Return) {
 		vc.bindResults(env, sig, res)
 		for _, ga := range c.Epilogue {
 			vc.ghostAssign(env, ga, vc.st)
+		}
+		for i, eo := range c.ErrorOnly {
+			if !vc.clauseOn(eo.Clause) || len(res) == 0 {
+				continue
+			}
+			last := res[len(res)-1]
+			if vc.pre.sortOf(last.Ty) != "Iface" {
+				continue
+			}
+			flag := vc.getH(vc.st, fmt.Sprintf("$errfrom:%d", i), "Bool")
+			extra := vc.evalGoal(env, eo.Clause.E, eo.Clause)
+			name := "[" + strings.Join(eo.Clause.Labels, ",") + "]"
+			vc.oblige(name, "post", fmt.Sprintf("return #%d (%s): an error is returned only after a failure of %s", vc.retCount, vc.P.Fset.Position(ins.Pos()), strings.Join(eo.Callees, ", ")),
+				fmt.Sprintf("(=> (not (= %s inil)) (or %s %s))", last.T, flag, extra), eo.Clause)
 		}
 		type pend struct {
 			name, goal string
@@ -2101,7 +2126,7 @@ func (vc *VC) frameCheck(c *Contract) {
 	}
 	sort.Strings(names)
 	for _, k := range names {
-		if allowed[k] || strings.HasPrefix(k, "$defer") || strings.HasPrefix(k, "$visited") || k == "$next" {
+		if allowed[k] || strings.HasPrefix(k, "$defer") || strings.HasPrefix(k, "$visited") || strings.HasPrefix(k, "$errfrom") || strings.HasPrefix(k, "$buf") || k == "$next" {
 			continue
 		}
 		s := vc.pre.heapSort[k]
@@ -2283,4 +2308,74 @@ func (vc *VC) GenerateLemmas(lemmas []*Clause) (err error) {
 		vc.oblige(name, "lemma", l.Text, g, l)
 	}
 	return nil
+}
+
+// emitUnmatchedAssertCalls: a call-site assertion whose callee is not called anywhere in the function cannot hold its
+// promise (the step it guards is gone): it becomes one failing obligation, once per function.
+func (vc *VC) emitUnmatchedAssertCalls() {
+	r := vc.r()
+	c := r.contract
+	if c == nil || vc.parent != nil || r.unmatchedDone {
+		return
+	}
+	r.unmatchedDone = true
+	for _, ac := range c.AssertCall {
+		if !vc.clauseOn(ac) {
+			continue
+		}
+		found := false
+		for _, b := range r.fn.Blocks {
+			for _, ins := range b.Instrs {
+				var com *ssa.CallCommon
+				switch x := ins.(type) {
+				case *ssa.Call:
+					com = x.Common()
+				case *ssa.Defer:
+					com = x.Common()
+				}
+				if com != nil && calleeMatches(calleeKey(com), ac.Callee) {
+					found = true
+				}
+			}
+		}
+		if !found {
+			name := "[" + strings.Join(ac.Labels, ",") + "]"
+			if len(ac.Labels) == 0 {
+				name = fmt.Sprintf("assert@call:%s@%d", ac.Callee, ac.Line)
+			}
+			vc.oblige(name, "assert", fmt.Sprintf("the function no longer calls %s, which the contract constrains: %s", ac.Callee, ac.Text), "false", ac)
+		}
+	}
+}
+
+// afterCall maintains the flags of the erroronly clauses: a listed callee has just returned; remember whether it failed.
+func (vc *VC) afterCall(call *ssa.Call) {
+	c := vc.r().contract
+	if c == nil || len(c.ErrorOnly) == 0 {
+		return
+	}
+	key := calleeKey(call.Common())
+	sig := call.Common().Signature()
+	n := sig.Results().Len()
+	if n == 0 || vc.pre.sortOf(sig.Results().At(n-1).Type()) != "Iface" {
+		return
+	}
+	var errTerm string
+	if n == 1 {
+		errTerm = vc.vals[call]
+	} else if t, ok := vc.tuples[call]; ok && len(t) == n {
+		errTerm = t[n-1]
+	}
+	if errTerm == "" {
+		return
+	}
+	for i, eo := range c.ErrorOnly {
+		for _, cal := range eo.Callees {
+			if calleeMatches(key, cal) {
+				name := fmt.Sprintf("$errfrom:%d", i)
+				old := vc.getH(vc.st, name, "Bool")
+				vc.setH(vc.st, name, "Bool", fmt.Sprintf("(or %s (not (= %s inil)))", old, errTerm))
+			}
+		}
+	}
 }
